@@ -324,7 +324,7 @@ Proof.
     + pose proof (na_join_poll P j w0 w) as H.
       destruct (join_poll P j w0 w) as [[j' r] w1]. simpl in *. rewrite na_emit_ret. auto.
   - split; auto. apply na_do_act.
-  - split; auto. destruct (observe k); auto.
+  - split; auto. destruct (observe P k); auto.
   - auto.
   - (* drop *)
     unfold do_drop. destruct k; try discriminate; simpl; auto.
